@@ -5,6 +5,15 @@
 #include "common_types.h"
 
 namespace Teakra {
+#ifdef TEAKRA_VERIF
+// verification hook: observer of every raw DSP memory access. OnAccess returns false to veto the
+// access (used to report, and not perform, an out-of-range access).
+struct VerifMemObserver {
+    virtual ~VerifMemObserver() = default;
+    virtual bool OnAccess(u32 byte_address, bool is_write, u16 value) = 0;
+};
+inline VerifMemObserver* verif_mem_observer = nullptr;
+#endif
 struct SharedMemory {
     // We allocate our own memory if the user doesn't supply their own
     std::unique_ptr<std::array<u8, 0x80000>> own_memory;
@@ -20,6 +29,10 @@ struct SharedMemory {
 
     u16 ReadWord(u32 word_address) const {
         u32 byte_address = word_address * 2;
+#ifdef TEAKRA_VERIF
+        if (verif_mem_observer && !verif_mem_observer->OnAccess(byte_address, false, 0))
+            return 0;
+#endif
         u8 low = raw[byte_address];
         u8 high = raw[byte_address + 1];
         return low | ((u16)high << 8);
@@ -28,6 +41,10 @@ struct SharedMemory {
         u8 low = value & 0xFF;
         u8 high = value >> 8;
         u32 byte_address = word_address * 2;
+#ifdef TEAKRA_VERIF
+        if (verif_mem_observer && !verif_mem_observer->OnAccess(byte_address, true, value))
+            return;
+#endif
         raw[byte_address] = low;
         raw[byte_address + 1] = high;
     }
